@@ -690,6 +690,8 @@ func (w *World) stop() {
 	// they report.
 	retired.Store(mgr, true)
 	worlds.Delete(mgr)
+	// the service leaves its converter processes to the exit of its own process; this process goes on
+	mgr.VerifStopConverterProcesses()
 	mgr.Close()
 	if idle {
 		// only when nothing runs any more: a job of this instance that is still reading an index would
